@@ -702,6 +702,12 @@ def run_c03(req):
             obs.append({"kind": "warning", "j": j, "msg": str(ww.message)[:300]})
         got = [(f.pyframe, f.lineno) for f in st.frames]
         got2 = [(f.pyframe, f.lineno) for f in st2.frames]
+        # "with_contexts=False leaves every contexts empty without changing the frames": nothing but contexts differs
+        if [(f.hide, f.hide_line, f.origin) for f in st.frames] != [(f.hide, f.hide_line, f.origin) for f in st2.frames] \
+                or any(f.contexts for f in st2.frames):
+            obs.append({"kind": "with_contexts_changes_frame_attributes", "j": j,
+                        "with": [(f.funcname, f.hide, f.hide_line, type(f.origin).__name__) for f in st.frames],
+                        "without": [(f.funcname, f.hide, f.hide_line, type(f.origin).__name__, len(f.contexts)) for f in st2.frames]})
         leaf, root, err = st.leaf, st.root, st.error
         leaf2 = st2.leaf
         del st, st2
@@ -826,6 +832,8 @@ def run_c16(req):
         try:
             st = extract(x)
             check_origin_contracts(b, st, obs, "suspended", stats)
+            # the contracts do not depend on whether contexts were asked for
+            check_origin_contracts(b, extract(x, with_contexts=False), obs, "suspended.without_contexts", stats)
             stats["frames"] = len(st.frames)
             try:
                 fo = extract_outermost(x)
